@@ -518,7 +518,7 @@ decls! {
     #[nutype(default = vec![1, 2, 3], derive(Debug, Clone, Serialize, Deserialize, Default, IntoIterator))]
     struct LevelsD(Vec<u8>);
     family = "other"; validated = false; core = false;
-    gen = |r| (0..r.below(3)).map(|_| r.below(256) as u8).collect();
+    gen = |r| { let n = if r.chance(1, 120) { *r.pick(&[70u64, 300, 5000, 70000]) } else { r.below(3) }; (0..n).map(|_| r.below(256) as u8).collect() };
     corpus = vec![vec![], vec![0], vec![1, 2, 3]];
 
     #[nutype(validate(predicate = |c| c.is_alphabetic()), derive(Debug, Clone, Serialize, Deserialize))]
@@ -619,7 +619,7 @@ impl Decl for NonEmptyVec<i16> {
         Repr::repr(inner)
     }
     fn gen(rng: &mut Rng) -> Vec<i16> {
-        let n = if rng.chance(1, 3) { 0 } else { rng.range_usize(1, 3) };
+        let n = if rng.chance(1, 120) { *rng.pick(&[70usize, 300, 1500, 70000]) } else if rng.chance(1, 3) { 0 } else { rng.range_usize(1, 3) };
         (0..n).map(|_| gen_int(rng, -2, 2, -32768, 32767) as i16).collect()
     }
     fn corpus() -> Vec<Vec<i16>> {
@@ -661,7 +661,7 @@ impl Decl for Sorted<String> {
         Repr::repr(inner)
     }
     fn gen(rng: &mut Rng) -> Vec<String> {
-        let n = rng.range_usize(0, 3);
+        let n = if rng.chance(1, 120) { *rng.pick(&[70usize, 300, 1500]) } else { rng.range_usize(0, 3) };
         (0..n).map(|_| gen_string(rng, 2)).collect()
     }
     fn corpus() -> Vec<Vec<String>> {
@@ -842,3 +842,7 @@ pub fn with_decl<V: DeclVisitor>(idx: usize, v: V) -> V::Out {
         _ => unreachable!("declaration index out of range"),
     }
 }
+
+/// Declarations whose sanitizer is not idempotent: re-submitting a held value to the constructor
+/// is not an identity there, so oracles that re-submit held values leave them out.
+pub const NOT_IDEMPOTENT: &[&str] = &["BumpU16", "Tagged", "HalfPair", "DoubleU8", "ScaleF64"];
